@@ -642,6 +642,33 @@ let run_history (payload : string) : string =
        | _ -> failwith "bad history header")
   | _ -> failwith "bad history payload"
 
+
+(* conc: "<fmt> ; <env> <atlas> ; <items> ; <T | tokens || ...>" — what sequential execution gives *)
+let run_conc (payload : string) : string =
+  match String.split_on_char ';' payload with
+  | [f; hd; items; docs] ->
+      let base = run_history (String.concat ";" [f; hd; items]) in
+      (match parse_sx hd with
+       | [e; a] ->
+           let env = env_of e and atl = atlas_of a in
+           let ds = List.filter (fun d -> String.trim d <> "")
+               (let rec split acc cur i =
+                  if i >= String.length docs then List.rev (Buffer.contents cur :: acc)
+                  else if i + 1 < String.length docs && docs.[i] = '|' && docs.[i + 1] = '|'
+                  then (let c = Buffer.contents cur in Buffer.clear cur; split (c :: acc) cur (i + 2))
+                  else (Buffer.add_char cur docs.[i]; split acc cur (i + 1)) in
+                split [] (Buffer.create 256) 0) in
+           let douts = List.map (fun d ->
+               let i = String.index d '|' in
+               let t = match parse_sx (String.sub d 0 i) with [t] -> gtype_of t | _ -> failwith "doc type" in
+               let toks = parse_tokens (String.sub d (i + 1) (String.length d - i - 1)) in
+               match M.unmarshal_top env atl t toks with
+               | M.UTDone (n, x) when int_of_nat n = List.length toks -> "d:" ^ print_gval x
+               | _ -> "derr") ds in
+           String.concat " ;; " (base :: douts)
+       | _ -> failwith "bad conc header")
+  | _ -> failwith "bad conc payload"
+
 (* maporder: same payload as roundtrip; the model's bytes *)
 let run_maporder (payload : string) : string =
   let i = String.index payload ';' in
@@ -757,6 +784,7 @@ let dispatch (suite : string) (payload : string) : string =
   match suite with
   | "wirenum" -> run_wirenum payload
   | "autogen" -> run_autogen payload
+  | "conc" -> run_conc payload
   | "untrusted" -> run_untrusted payload
   | "maporder" -> run_maporder payload
   | "remarshal" -> run_remarshal payload
